@@ -9,12 +9,24 @@ import (
 	"math/big"
 
 	"github.com/consensys/gnark-crypto/ecc"
+	mimc377 "github.com/consensys/gnark-crypto/ecc/bls12-377/fr/mimc"
+	te377 "github.com/consensys/gnark-crypto/ecc/bls12-377/twistededwards"
 	"github.com/consensys/gnark-crypto/ecc/bls12-381/bandersnatch"
 	bseddsa "github.com/consensys/gnark-crypto/ecc/bls12-381/bandersnatch/eddsa"
 	bsfr "github.com/consensys/gnark-crypto/ecc/bls12-381/fr"
+	mimc317 "github.com/consensys/gnark-crypto/ecc/bls24-317/fr/mimc"
+	te317 "github.com/consensys/gnark-crypto/ecc/bls24-317/twistededwards"
+	mimc633 "github.com/consensys/gnark-crypto/ecc/bw6-633/fr/mimc"
+	te633 "github.com/consensys/gnark-crypto/ecc/bw6-633/twistededwards"
+	grfp "github.com/consensys/gnark-crypto/ecc/grumpkin/fp"
+	grfr "github.com/consensys/gnark-crypto/ecc/grumpkin/fr"
+	mimcGr "github.com/consensys/gnark-crypto/ecc/grumpkin/fr/mimc"
 	"github.com/consensys/gnark-crypto/ecc/secp256k1"
 	secdsa "github.com/consensys/gnark-crypto/ecc/secp256k1/ecdsa"
+	secfp "github.com/consensys/gnark-crypto/ecc/secp256k1/fp"
 	secfr "github.com/consensys/gnark-crypto/ecc/secp256k1/fr"
+	starkfp "github.com/consensys/gnark-crypto/ecc/stark-curve/fp"
+	starkfr "github.com/consensys/gnark-crypto/ecc/stark-curve/fr"
 	ghash "github.com/consensys/gnark-crypto/hash"
 	_ "github.com/consensys/gnark-crypto/hash/all"
 )
@@ -69,14 +81,15 @@ func buildMisc(b *builder) {
 		bs := id.New().BlockSize()
 		msg := smallWords(rnd, 5*bs)
 		b.light = true
-		b.add("hash."+id.String()+".New/Write/Sum", func() []byte {
+		b.addRet("hash."+id.String()+".New/Write/Sum", func() ([]byte, []interface{}) {
 			h := id.New()
 			_, err := h.Write(msg[:2*bs])
 			_, err2 := h.Write(msg[2*bs:])
 			s1 := h.Sum(nil)
 			h.Reset()
 			h.Write(msg[:bs])
-			return new(out).b(s1).b(h.Sum(nil)).err(err).err(err2).int(h.Size()).Bytes()
+			s2 := h.Sum(nil)
+			return new(out).b(s1).b(s2).err(err).err(err2).int(h.Size()).Bytes(), []interface{}{&s1, &s2}
 		}, sh("msg:"+id.String(), msg))
 	}
 
@@ -84,10 +97,57 @@ func buildMisc(b *builder) {
 	base := bandersnatch.GetEdwardsCurve().Base
 	k := new(big.Int).SetBytes(rnd.bytes(40))
 	kNeg := new(big.Int).Neg(new(big.Int).SetBytes(rnd.bytes(20)))
-	b.add("bandersnatch.GetEdwardsCurve", func() []byte {
+	b.addRet("bandersnatch.GetEdwardsCurve", func() ([]byte, []interface{}) {
 		c := bandersnatch.GetEdwardsCurve()
 		d := snapshot(&c)
-		return d[:]
+		var p bandersnatch.PointAffine
+		p.ScalarMultiplication(&c.Base, &c.Order)
+		return new(out).b(d[:]).bool(p.IsZero()).Bytes(), []interface{}{&c}
+	})
+	// the Edwards companions of the curves without a registry of their own (with the four curve groups and
+	// bandersnatch: all 8 Edwards packages)
+	b.addRet("bls12-377/twistededwards.GetEdwardsCurve", func() ([]byte, []interface{}) {
+		c := te377.GetEdwardsCurve()
+		d := snapshot(&c)
+		var p te377.PointAffine
+		p.ScalarMultiplication(&c.Base, &c.Order)
+		return new(out).b(d[:]).bool(p.IsZero()).Bytes(), []interface{}{&c}
+	})
+	b.addRet("bls24-317/twistededwards.GetEdwardsCurve", func() ([]byte, []interface{}) {
+		c := te317.GetEdwardsCurve()
+		d := snapshot(&c)
+		var p te317.PointAffine
+		p.ScalarMultiplication(&c.Base, &c.Order)
+		return new(out).b(d[:]).bool(p.IsZero()).Bytes(), []interface{}{&c}
+	})
+	b.addRet("bw6-633/twistededwards.GetEdwardsCurve", func() ([]byte, []interface{}) {
+		c := te633.GetEdwardsCurve()
+		d := snapshot(&c)
+		var p te633.PointAffine
+		p.ScalarMultiplication(&c.Base, &c.Order)
+		return new(out).b(d[:]).bool(p.IsZero()).Bytes(), []interface{}{&c}
+	})
+	// the remaining MiMC constant tables, Poseidon2 defaults and moduli
+	b.addRet("bls12-377+bls24-317+bw6-633+grumpkin mimc.GetConstants", func() ([]byte, []interface{}) {
+		c1, c2, c3, c4 := mimc377.GetConstants(), mimc317.GetConstants(), mimc633.GetConstants(), mimcGr.GetConstants()
+		var o out
+		for _, c := range [][]big.Int{c1, c2, c3, c4} {
+			for i := range c {
+				o.b(c[i].Bytes())
+			}
+		}
+		return o.Bytes(), []interface{}{&c1, &c2, &c3, &c4}
+	})
+	b.addRet("secp256k1/stark-curve/grumpkin Modulus", func() ([]byte, []interface{}) {
+		ms := []*big.Int{secfr.Modulus(), secfp.Modulus(), starkfr.Modulus(), starkfp.Modulus(), grfr.Modulus(), grfp.Modulus(),
+			ecc.BLS12_377.ScalarField(), ecc.BLS24_317.BaseField(), ecc.BW6_633.ScalarField(), ecc.GRUMPKIN.BaseField(), ecc.SECP256K1.ScalarField(), ecc.STARK_CURVE.BaseField()}
+		var o out
+		for _, m := range ms {
+			o.b(m.Bytes())
+		}
+		var x secfr.Element
+		x.SetBigInt(new(big.Int).Add(ms[0], big.NewInt(3)))
+		return o.s(x.String()).Bytes(), []interface{}{&ms}
 	})
 	for _, kc := range []struct {
 		n string
